@@ -701,6 +701,8 @@ class CallMixin:
             raise Unsupported(f"int({v!r})")
         if name == 'bool':
             return VBool(zbool_(self.truth(args[0], fr)))
+        if name == 'str' and args and isinstance(args[0], (VSeq, VView)) and args[0].skind == 'str':
+            return args[0]
         if name in ('str', 'repr'):
             return VOpaque(None, 'str')
         if name == 'id':
